@@ -35,10 +35,21 @@ def blob(b):
     return f'(unblob {len(b)}%N [' + ';'.join('[' + ';'.join(map(str, g)) + ']%uint63' for g in groups) + '])'
 
 
+# transport only: while a case term is assembled with sharing switched on, a long list literal that occurs several times
+# in the term (the same bit patterns as supplied values, as oracle output and as model input when no conversion took
+# place) is written once and let-bound; lists with different content are never merged
+_SHARE = None
+
+
 def f64list(bits):
     if len(bits) <= 3:
         return '[' + ';'.join(str(int(b)) for b in bits) + ']%N'
-    return '(f64s ' + blob(b''.join(struct.pack('>Q', int(b)) for b in bits)) + ')'
+    raw = b''.join(struct.pack('>Q', int(b)) for b in bits)
+    if _SHARE is not None and len(bits) >= 2000:
+        if raw not in _SHARE:
+            _SHARE[raw] = (f'shared_{len(_SHARE)}', '(f64s ' + blob(raw) + ')')
+        return _SHARE[raw][0]
+    return '(f64s ' + blob(raw) + ')'
 
 
 def u32list(bits):
@@ -248,6 +259,69 @@ def gen_pix_call(rng, n, n_runs=None, convert=True, f32_signal=False, en2d=False
             'experiments': [gen_experiment(rng, i, en2d=en2d, big=big and k == 0, dtypes=dtypes) for k, i in enumerate(ids)]}
 
 
+EXTRA_COORD_NAMES = ['detector_number', 'tof', 'Q', 'wavelength', 'position_index', 'u5', 'signal_copy', 'event_id']
+MASK_NAMES = ['hot_pixel', 'beamstop', 'bad_detector', 'bragg_peak', 'user']
+
+
+def row_values(call, name):
+    return call['rows'][name]['values']
+
+
+def extreme_flags(call, row, which):
+    """flags of ALL pixels that hold the smallest ('min') / largest ('max') supplied value of `row` (so that the
+    min / max over the remaining pixels differs whenever the row is not constant)"""
+    vals = row_values(call, row)
+    if not vals:
+        return []
+    ext = min(vals) if which == 'min' else max(vals)
+    return [v == ext for v in vals]
+
+
+def add_pix_extras(rng, call, mode='random'):
+    """what the supplied pixel DataArray carries BESIDES the nine rows: boolean masks over the pixel dimension and
+    coordinates that are not rows.  The SQW pixel block has no notion of masks: all N supplied pixels are content, in
+    order, and the pixel metadata describe all N of them.
+    mode: 'random' (1..3 masks of random density incl. all-False and all-True, 0..3 extra coordinates),
+          ('extreme', row, 'min'|'max'|'both') (one mask flagging exactly the pixels holding that extreme of that row,
+          plus possibly a random second mask), 'coords' (extra coordinates only)"""
+    n = call['npix']
+    masks, extra = [], []
+    names = MASK_NAMES[:]
+    rng.shuffle(names)
+    if isinstance(mode, (tuple, list)) and mode[0] == 'extreme':
+        _, row, which = mode
+        if which == 'both':
+            a, b = extreme_flags(call, row, 'min'), extreme_flags(call, row, 'max')
+            flags = [x or y for x, y in zip(a, b)]
+        else:
+            flags = extreme_flags(call, row, which)
+        masks.append({'name': names.pop(), 'flags': flags, 'what': f'{which}:{row}'})
+        if rng.random() < 0.4:
+            masks.append({'name': names.pop(), 'flags': [rng.random() < 0.2 for _ in range(n)], 'what': 'random'})
+    elif mode == 'random':
+        for _ in range(rng.randrange(1, 4)):
+            dens = rng.choice([0.0, 0.1, 0.5, 0.9, 1.0])
+            masks.append({'name': names.pop(), 'flags': [rng.random() < dens for _ in range(n)], 'what': f'density:{dens}'})
+    if mode in ('random', 'coords') or rng.random() < 0.5:
+        cn = EXTRA_COORD_NAMES[:]
+        rng.shuffle(cn)
+        for _ in range(rng.randrange(1 if mode == 'coords' else 0, 4)):
+            dt = rng.choice(['float64', 'int64', 'float32'])
+            scalar_c = rng.random() < 0.25
+            k = 1 if scalar_c else n
+            vals = [rng.randrange(-1000, 100000) for _ in range(k)] if dt == 'int64' else [cast(rng.uniform(-1e6, 1e6), dt) for _ in range(k)]
+            x = {'name': cn.pop(), 'dtype': dt, 'unit': rng.choice([None, 'dimensionless', 'us', 'm', '1/angstrom', 'meV']),
+                 'scalar': scalar_c, 'values': vals}
+            if dt != 'int64' and rng.random() < 0.3:
+                x['variances'] = [cast(rng.uniform(0, 10), dt) for _ in range(k)]
+            extra.append(x)
+    if masks:
+        call['masks'] = masks
+    if extra:
+        call['extra_coords'] = extra
+    return call
+
+
 def gen_inst_call(rng, big=False, dtypes='mixed'):
     return {'kind': 'inst', 'name': ascii_string(rng, strlen(rng, big)), 'src_name': ascii_string(rng, strlen(rng)),
             'src_target': ascii_string(rng, strlen(rng)), 'freq': sq(rng, ['MHz', 'Hz'], 0, 100, dtypes)}
@@ -377,6 +451,12 @@ def describe(case):
                                'modes': sorted({x['emode'] for x in c['experiments']}),
                                'en_ndim': sorted({len(x['en']['dims']) for x in c['experiments']}),
                                'dtypes': {k: v for k, v in field_dtypes(c).items() if v not in (['float64'], ['int64'])}})
+            if c.get('masks'):
+                d['calls'][-1]['masks'] = [{'name': m['name'], 'what': m.get('what'), 'n_masked': sum(map(bool, m['flags']))}
+                                           for m in c['masks']]
+            if c.get('extra_coords'):
+                d['calls'][-1]['extra_coords'] = [{'name': x['name'], 'dtype': x['dtype'], 'unit': x['unit'], 'scalar': x['scalar'],
+                                                   'variances': 'variances' in x} for x in c['extra_coords']]
         elif c['kind'] == 'dnd':
             d['calls'].append({'kind': 'dnd', 'nbins': c['axes']['nbins'],
                                'dtypes': {k: v for k, v in field_dtypes(c).items() if v not in ('float64', 'int64')}})
@@ -504,7 +584,16 @@ def endian_term(s):
     return 'LE' if s == 'little' else 'BE'
 
 
-def case_term(case, res, with_convs=True, with_reader_view=True):
+def case_term(case, res, with_convs=True, with_reader_view=True, share=False):
+    global _SHARE
+    if share:
+        _SHARE = {}
+        try:
+            body = case_term(case, res, with_convs, with_reader_view)
+            lets = ''.join(f'let {name} := {lit} in\n' for name, lit in _SHARE.values())
+        finally:
+            _SHARE = None
+        return f'({lets}{body})' if lets else body
     calls, convs = call_terms(case, res)
     env = res['env']
     dates = env.get('dates', [])
